@@ -501,3 +501,13 @@ func (eng *Engine) immutableGlobalKey(key string) bool {
 	}
 	return !eng.mutableGlobals[name]
 }
+
+// errorStringTypeID is the dynamic type id of values made by errors.New.
+func (eng *Engine) errorStringTypeID() int {
+	if id, ok := eng.typeIDs["*errors.errorString"]; ok {
+		return id
+	}
+	id := len(eng.typeIDs) + 1
+	eng.typeIDs["*errors.errorString"] = id
+	return id
+}
